@@ -2,7 +2,7 @@
   Spec/SchemaFrag.lean — the decidable predicates that delimit what the C08 theorems cover.
 
   * `fragF` / `inSchemaFragment`: declaration-level fragment of `schema_admits_partial`.  Every
-    excluded kind is named here:
+    excluded kind is named here (classes with defaults are inside: the validator ignores `default`):
       - Deque / Anything / NoneField / non-String map keys / non-scalar enum literals: the mapping raises;
       - `multiplesOf = 0`;
       - OneOf / AllOf / NotField (need the exactness direction), AnyOf over non-scalar options:
@@ -35,6 +35,15 @@ def plainScalar : FieldDecl → Bool
   | .number _ | .integer _ | .float _ | .string _ _ _ | .boolean | .enumLit _ => true
   | _ => false
 
+/-- scalar kinds that store the raw input unchanged and for which "accepted" and "conforms" are the same
+    test (Number, Integer, String, Enum of literals): an `AllOf` over them stores a value every option
+    conforms to.  Float (an int is accepted and normalised), Boolean (the strings 'True' / 'False' are
+    accepted) and enum classes (names are accepted) keep the raw input inside AllOf: findings
+    `admits:allOf`, `admits:raw-boolean-string` -/
+def rawScalar : FieldDecl → Bool
+  | .number _ | .integer _ | .string _ _ _ | .enumLit _ => true
+  | _ => false
+
 /-- item kinds for which `==`-distinct stored values have JSON-distinct serializations -/
 def uniqSafe : FieldDecl → Bool
   | .enumCls _ _ => true
@@ -61,12 +70,12 @@ def fragF : FieldDecl → Bool
   | .tuplePos fs _ => !fs.isEmpty && fragL fs
   | .mapAny _ => true
   | .mapOf k v _ => isStringField k && fragF v
-  | .struct _ fields defaults =>
-    nodupS (fields.map (·.1)) && defaults.isEmpty && fragP fields
+  | .struct _ fields _ =>
+    nodupS (fields.map (·.1)) && fragP fields
   | .anyOf fs =>
     if optShape fs then fragOpt fs else !fs.isEmpty && fs.all plainScalar && fragL fs
   | .oneOf _ => false
-  | .allOf _ => false
+  | .allOf fs => !fs.isEmpty && fs.all rawScalar && fragL fs
   | .notF _ => false
   | .noneF => false
   | .anything => false
@@ -122,6 +131,14 @@ def distinctImages (r : R (List PyVal)) : Bool :=
   | .ok ys => jsonNodup ys
   | .error _ => true
 
+/-- a size bound on a Map counts the members of the serialized object: Python keys that are different
+    can have one JSON name (`1` and `"1"`), then the object is smaller than the map (finding
+    `admits:map-size-key-collision`); without a bound nothing is asked -/
+def sameCount (sz : SizeOpts) (n : Nat) (r : R PyVal) : Bool :=
+  (sz.min.isNone && sz.max.isNone) || (match r with
+    | .ok (.dict r') => r'.length == n
+    | _ => true)
+
 def attrPresent (attrs : List (String × PyVal)) (r : String) : Bool :=
   match lookup r attrs with
   | some v => !v.isNone
@@ -157,8 +174,12 @@ def regF (O : Oracles) : FieldDecl → PyVal → Bool
   | .tuplePos fs u, v => (match v with
     | .tuple xs => regZip O fs xs && (!u || distinctImages (serZip O fs xs))
     | _ => false)
-  | .mapAny _, _ => true
-  | .mapOf _ vf _, v => (match v with | .dict kvs => kvs.all (fun kv => regF O vf kv.2) | _ => false)
+  | .mapAny sz, v => (match v with
+    | .dict kvs => sameCount sz kvs.length (ser O (.mapAny sz) (.dict kvs))
+    | _ => false)
+  | .mapOf kf vf sz, v => (match v with
+    | .dict kvs => kvs.all (fun kv => regF O vf kv.2) && sameCount sz kvs.length (ser O (.mapOf kf vf sz) (.dict kvs))
+    | _ => false)
   | .struct c fields defaults, v => (match v with
     | .inst cn attrs =>
       cn == c.name && nodupS (attrs.map (·.1))
@@ -167,6 +188,7 @@ def regF (O : Oracles) : FieldDecl → PyVal → Bool
       && regFields O attrs fields
     | _ => false)
   | .anyOf fs, v => if optShape fs then !v.isNone && regOpt O fs v else regAll O fs v
+  | .allOf fs, v => regAll O fs v
   | _, _ => false
 termination_by structural f _ => f
 def regZip (O : Oracles) : List FieldDecl → List PyVal → Bool
@@ -434,7 +456,7 @@ def requiredFaithful (km : KeyMap) (c : ClassOpts) (defaults : List (String × P
 def renameSafe (km : KeyMap) (cls : FieldDecl) (j : PyVal) : Bool :=
   match cls, j with
   | .struct c fields defaults, .dict r =>
-    injOnB km (fields.map (·.1) ++ docKeys r) && requiredFaithful km c defaults (fields.map (·.1))
+    defaults.isEmpty && injOnB km (fields.map (·.1) ++ docKeys r) && requiredFaithful km c defaults (fields.map (·.1))
   | _, _ => false
 
 /-! ### exact sub-fragment -/
@@ -455,15 +477,55 @@ def exactScalar : FieldDecl → Bool
   | .float o => numOptsOk o && o.sign == .any && o.mult.isNone
   | .string _ _ pat => (match pat with | some p => startAnchored p | none => true)
   | .boolean => true
-  | .enumLit vs => !vs.isEmpty && vs.all enumValOk
+  | .enumLit vs => !vs.isEmpty && vs.all enumScalar      -- an Enum with None admits null, which the runtime treats as absent
   | .enumCls _ names => !names.isEmpty
   | _ => false
 
+mutual
+/-- the exact fragment at field level: exact scalars, homogeneous `Array[X]` / `Tuple[X]` (no
+    `uniqueItems`, any size bounds) over it, and nested Structure classes (by `$ref`; no defaults, the
+    class accepts its own instances, required fields declared) whose fields are in it — at any depth.
+    Positional items, sized or key-constrained Maps are NOT exact (findings exact:positional-shorter,
+    exact:map-size, exact:map-key-constraint) -/
+def exactF : FieldDecl → Bool
+  | .seqOf k f sz => k == .list && !sz.uniq && exactF f
+  | .tupleOf f u => !u && exactF f
+  | .struct c fields defaults =>
+    !c.inline && defaults.isEmpty && c.accepts.contains c.name && nodupS (fields.map (·.1))
+    && c.required.all (fields.map (·.1)).contains && exactFields fields
+  | .number o => exactScalar (.number o)
+  | .integer o => exactScalar (.integer o)
+  | .float o => exactScalar (.float o)
+  | .string lo hi pat => exactScalar (.string lo hi pat)
+  | .boolean => true
+  | .enumLit vs => exactScalar (.enumLit vs)
+  | .enumCls c names => exactScalar (.enumCls c names)
+  | _ => false
+termination_by structural f => f
 def exactFields : List (String × FieldDecl) → Bool
   | [] => true
-  | (_, f) :: ps => exactScalar f && exactFields ps
+  | (_, f) :: ps => exactF f && exactFields ps
+termination_by structural ps => ps
+end
 
-/-- flat classes over exact scalar fields, no defaults, not a field wrapper -/
+mutual
+/-- a JSON document as Python reads it: every object key is a string -/
+def jsonDoc : PyVal → Bool
+  | .list xs => jsonDocL xs
+  | .dict kvs => jsonDocP kvs
+  | _ => true
+termination_by structural v => v
+def jsonDocL : List PyVal → Bool
+  | [] => true
+  | x :: xs => jsonDoc x && jsonDocL xs
+termination_by structural xs => xs
+def jsonDocP : List (PyVal × PyVal) → Bool
+  | [] => true
+  | (k, v) :: rest => isStrJ k && jsonDoc v && jsonDocP rest
+termination_by structural kvs => kvs
+end
+
+/-- classes over the exact field fragment (scalars, Array[X], Tuple[X], nested classes), no defaults, not a field wrapper -/
 def inExactFragment (cls : FieldDecl) : Bool :=
   match cls with
   | .struct c fields defaults =>
